@@ -5,10 +5,12 @@ F = "src/histogram.rs"
 FC = "src/histogram_const.rs"
 
 
-def hist_job(prop, lens, names, unwind, timeout=1500, jobs=12, features="std", harness_timeout=None):
+def hist_job(prop, lens, names, unwind, timeout=1500, jobs=12, features="std", harness_timeout=None, modular=False):
     """names: list of (harness fn, obligation suffix, function under contract[, expect_panic])."""
     job = KaniJob(prop, features=features, timeout=timeout, jobs=jobs, harness_timeout=harness_timeout)
     job.include_in_macro(F, "define_histogram_common", "histogram.rs", prelude="use crate::{InvalidRangeError, SampleOutOfRangeError};")
+    if modular:
+        job.include_in_macro(F, "define_histogram_common", "histogram_modular.rs", modname="verif_kani_mod")
     inst = []
     for L in lens:
         if L != 10:
@@ -20,7 +22,7 @@ def hist_job(prop, lens, names, unwind, timeout=1500, jobs=12, features="std", h
         for t in names:
             fn, ob, func = t[0], t[1], t[2]
             ep = len(t) > 3 and t[3]
-            job.add(Harness("%s::verif_kani::%s" % (mod, fn), "%s.hist[%d].%s" % (prop, L, ob),
+            job.add(Harness("%s::%s::%s" % (mod, "verif_kani_mod" if modular else "verif_kani", fn), "%s.hist[%d].%s" % (prop, L, ob),
                             "%s::define_histogram!(_, %d)::%s" % (F, L, func), expect_panic=ep))
     return job
 
